@@ -316,8 +316,15 @@ static int hook (void)
       print_end ();
     }
   in_cycle = 0;
+  /* what a client sent and the driver has not read: normally nothing; get_user_data() holds a read back while the text
+   * buffer is full of commands typed ahead */
   for (int k = 1; k <= nclients; k++)
-    unread[k] = 0;
+    {
+      int n = 0;
+      unread[k] = 0;
+      if (k <= naccepted && slot_of (cip[k]) >= 0 && ioctl (cip[k]->fd, FIONREAD, &n) == 0 && n > 0)
+        unread[k] = n;
+    }
   while (curline < nlines)
     {
       char *l = lines[curline++];
